@@ -21,11 +21,11 @@ static const char *const scn_names[] = { "default", "pipes+input", "stderr-to-st
 enum { H_DESTROY, H_WAIT, H_ROUNDTRIP, H_DRAIN, H_TERMKILL, H_KILLWAIT, H_RUNEX, H_LATEPOLL, H_DRAIN_STRING, NHIST };
 static const char *const hist_names[] = { "destroy", "wait", "roundtrip", "drain", "term-wait-kill", "kill-wait", "run_ex", "deadline-passes,poll,drain,kill,wait", "drain-into-strings" };
 
-enum { N_MISSING, N_DIRECTORY, N_NOEXEC, N_TOOLONG, N_WD_MISSING, N_WD_FILE, N_PATH_NODIR, N_PATH_ISDIR, N_INPUT_BIG, N_BARE_MISSING, N_OWN_HANDLE_CLOSED, N_OWN_FILE_CLOSED, NNAT };
+enum { N_MISSING, N_DIRECTORY, N_NOEXEC, N_TOOLONG, N_WD_MISSING, N_WD_FILE, N_PATH_NODIR, N_PATH_ISDIR, N_INPUT_BIG, N_BARE_MISSING, N_OWN_HANDLE_CLOSED, N_OWN_FILE_CLOSED, N_MISSING_NOSTD, N_WD_MISSING_NOSTD, NNAT };
 static const char *const nat_names[] = { "missing-program", "directory-as-program", "no-x-bit", "path-too-long", "workdir-missing",
                                          "workdir-is-file", "redirect-path-no-dir", "redirect-path-is-dir", "input-over-pipe-size",
-                                         "bare-name-not-in-PATH", "stdout-handle-1-closed", "stderr-FILE-closed" };
-static const int nat_errno[] = { ENOENT, EACCES, EACCES, ENAMETOOLONG, ENOENT, ENOTDIR, ENOENT, EISDIR, EAGAIN, ENOENT, EBADF, EBADF };
+                                         "bare-name-not-in-PATH", "stdout-handle-1-closed", "stderr-FILE-closed", "missing-program,no-std-descriptors,discard", "workdir-missing,no-std-descriptors,discard" };
+static const int nat_errno[] = { ENOENT, EACCES, EACCES, ENAMETOOLONG, ENOENT, ENOTDIR, ENOENT, EISDIR, EAGAIN, ENOENT, EBADF, EBADF, ENOENT, ENOENT };
 
 enum {
   CL_START_FAILED_CLEAN, CL_START_OK_DESPITE_FAULT, CL_START_OK, CL_RESTART_OK, CL_NATURAL, CL_LEDGERS_CLEAN, CL_USER_OBJECTS_INTACT,
@@ -364,6 +364,15 @@ static void body(const struct params *pa)
         close(1);
         sc.o.redirect.out.type = REPROC_REDIRECT_HANDLE;
         sc.o.redirect.out.handle = 1;
+        break;
+      /* a daemon without descriptors 0-2 and nothing piped: every pipe the library makes for itself lands on 0-2, where the child installs its streams */
+      case N_MISSING_NOSTD:
+      case N_WD_MISSING_NOSTD:
+        close(0); close(1); close(2);
+        sc.o.redirect.discard = true;
+        sc.o.redirect.err.type = REPROC_REDIRECT_DEFAULT;
+        if (pa->nat == N_MISSING_NOSTD) { nat_argv[0] = "/nonexistent-dir/prog"; sc.argv = nat_argv; }
+        else sc.o.working_directory = "no-such-dir";
         break;
       case N_OWN_FILE_CLOSED:
         close(2);
